@@ -283,6 +283,8 @@ class Recorder:
         self._claims = set()
         self.t0 = time.time()
         self.cross = {"checked": 0, "agree": 0, "cvc5_unknown": 0, "disagree": 0}  # "diff two solvers"
+        # wall-clock budget of the unit: obligations that are reached after it are inconclusive (never a pass)
+        self.deadline = time.time() + float(os.environ.get("VF_UNIT_BUDGET_S", "2400"))
         self.symbols = {}  # name -> z3 const; set by the unit (Session.symbols)
         self.replay_target = None  # (obligation name, values) when re-executing a stored replay
         self.replay_outcome = None
@@ -374,6 +376,10 @@ class Recorder:
                 self.replay_outcome = replay(self.replay_target[1])
             return True
         ob = {"name": name, "unit": self.unit}
+        if time.time() > self.deadline:
+            ob.update({"verdict": "unknown", "reason": "unit wall-clock budget exhausted"})
+            self.obligations.append(ob)
+            return None
         if info:
             ob["info"] = info
         claim_t = None
